@@ -70,8 +70,6 @@ func mergeSchemas(sources []*ast.Schema) (*ast.Schema, error) {
 				// use the declaration that we got from the new schema
 				result.Types[name] = definition
 
-				result.AddPossibleType(name, definition)
-
 				// we're done with this definition
 				continue
 			}
@@ -84,13 +82,8 @@ func mergeSchemas(sources []*ast.Schema) (*ast.Schema, error) {
 		}
 	}
 
-	possibleTypesSet := map[string]Set{}
-
 	// merge each definition of each type into one
 	for name, definitions := range types {
-		if _, exists := possibleTypesSet[name]; !exists {
-			possibleTypesSet[name] = Set{}
-		}
 		for _, definition := range definitions {
 			// look up if the type is already registered in the aggregate
 			previousDefinition, exists := result.Types[name]
@@ -99,26 +92,6 @@ func mergeSchemas(sources []*ast.Schema) (*ast.Schema, error) {
 			if !exists {
 				// use the declaration that we got from the new schema
 				result.Types[name] = definition
-
-				if definition.Kind == ast.Union {
-					for _, possibleType := range definition.Types {
-						for _, typedef := range types[possibleType] {
-							if !possibleTypesSet[name].Has(typedef.Name) {
-								possibleTypesSet[name].Add(typedef.Name)
-								result.AddPossibleType(name, typedef)
-							}
-						}
-					}
-				} else {
-					// register the type as an implementer of itself
-					result.AddPossibleType(name, definition)
-				}
-
-				// each interface that this type implements needs to be registered
-				for _, iface := range definition.Interfaces {
-					result.AddPossibleType(iface, definition)
-					result.AddImplements(definition.Name, result.Types[definition.Name])
-				}
 
 				// we're done with this type
 				continue
@@ -180,6 +153,37 @@ func mergeSchemas(sources []*ast.Schema) (*ast.Schema, error) {
 				return nil, err
 			}
 			result.Directives[name] = previousDefinition
+		}
+	}
+
+	// possible types and implemented interfaces are registered once every definition of every
+	// type has been merged, and from the merged definitions, so that they do not depend on which
+	// service happened to be listed first
+	typeNames := make([]string, 0, len(result.Types))
+	for name := range result.Types {
+		typeNames = append(typeNames, name)
+	}
+	sort.Strings(typeNames)
+	for _, name := range typeNames {
+		definition := result.Types[name]
+		switch definition.Kind {
+		case ast.Union:
+			for _, member := range definition.Types {
+				if memberDefinition, ok := result.Types[member]; ok {
+					result.AddPossibleType(name, memberDefinition)
+				}
+			}
+		default:
+			// register the type as an implementer of itself
+			result.AddPossibleType(name, definition)
+
+			// each interface that this type implements needs to be registered
+			for _, iface := range definition.Interfaces {
+				result.AddPossibleType(iface, definition)
+				if ifaceDefinition, ok := result.Types[iface]; ok {
+					result.AddImplements(definition.Name, ifaceDefinition)
+				}
+			}
 		}
 	}
 
